@@ -262,7 +262,7 @@ def parseCtx : String → Option Ctx
   | "litElem" => some .litElem | "box" => some .box | "unbox" => some .unbox
   | "recvValue" => some .recvValue | "methodValue" => some .methodValue
   | "boundCall" => some .boundCall | "ifaceCall" => some .ifaceCall
-  | "deferRecv" => some .deferRecv | "goRecv" => some .goRecv | "deref" => some .deref | _ => none
+  | "deferRecv" => some .deferRecv | "goRecv" => some .goRecv | "deref" => some .deref | "conv" => some .conv | _ => none
 
 /-- `ctx>ctx>x/path` -/
 def parseExpr (s : String) : Option Expr :=
